@@ -63,7 +63,7 @@ def verify(src_dir, pid, k):
             return pid, k, False, 'demo passes with the change'
         if rc_c != 0:
             return pid, k, False, 'demo fails on the clean tree: ' + out_c[-300:]
-        dst = os.path.join(OUT, f'{pid}-{k}')
+        dst = os.path.join(OUT, f'{pid}-{os.environ.get("SEED_TAG", "")}{k}')
         os.makedirs(dst, exist_ok=True)
         with open(os.path.join(dst, 'patch.diff'), 'w') as fh:
             fh.write(newpatch)
